@@ -55,14 +55,34 @@ def crop_ds(ds, r0, r1, c0, c1, keep_coords):
     return out
 
 
-def run_whole_and_crops(ctx, report, gs, label):
+def run_whole_and_crops(ctx, report, gs, label, wide=False):
     rng = random.Random(gs)
-    rows, cols = rng.choice([(14, 22), (12, 26), (16, 20)])
-    lo = rng.choice([-3, -2, -1, 0])
-    hi = lo + rng.choice([1, 2, 3])
-    left, right = pl.make_pair(rng, rows, cols, lo, hi, masks=rng.random() < 0.4, smooth=True)
-    pipe, rr, rc, cross = gen_local_pipeline(rng)
-    case = {"label": label, "pipeline": pipe, "shape": [rows, cols], "disp": [lo, hi], "radius": [rr, rc]}
+    if wide:
+        # a strip several internal processing blocks long (100 / 50 pixels) with a large no-data area: a tile starting
+        # past the area must give the same values as the whole strip
+        rows, cols = rng.choice([(8, 230), (9, 260), (7, 215)])
+        lo, hi = rng.choice([(-1, 1), (0, 1), (-2, 0)])
+        left, right = pl.make_pair(rng, rows, cols, lo, hi, masks=False, smooth=True)
+        band = rng.choice([103, 106, 110])
+        msk = np.zeros((rows, cols), dtype=np.int16)
+        msk[:, :band] = 1
+        left["msk"] = xr.DataArray(msk, dims=["row", "col"])
+        right["msk"] = xr.DataArray(msk.copy(), dims=["row", "col"])
+        w = rng.choice([1, 3])
+        fs = rng.choice([3, 5])
+        pipe = {"matching_cost": {"matching_cost_method": rng.choice(["sad", "census"]) if w == 3 else "sad", "window_size": w, "subpix": 1},
+                "disparity": {"disparity_method": "wta", "invalid_disparity": -9999},
+                "filter": rng.choice([{"filter_method": "median", "filter_size": fs},
+                                      {"filter_method": "bilateral", "sigma_color": 2.0, "sigma_space": 1.0}])}
+        rr = rc = (w - 1) // 2 + (fs // 2 if pipe["filter"]["filter_method"] == "median" else 4)
+        cross = False
+    else:
+        rows, cols = rng.choice([(14, 22), (12, 26), (16, 20)])
+        lo = rng.choice([-3, -2, -1, 0])
+        hi = lo + rng.choice([1, 2, 3])
+        left, right = pl.make_pair(rng, rows, cols, lo, hi, masks=rng.random() < 0.4, smooth=True)
+        pipe, rr, rc, cross = gen_local_pipeline(rng)
+    case = {"label": label, "pipeline": pipe, "shape": [rows, cols], "disp": [lo, hi], "radius": [rr, rc], "wide": wide}
     try:
         w_l, w_r, _ = pl.run_pipeline(left.copy(deep=True), right.copy(deep=True), pipe)
     except ZeroDivisionError:
@@ -76,9 +96,9 @@ def run_whole_and_crops(ctx, report, gs, label):
     n_pixels = 0
     for k in range(4):
         # crops that share some image borders and crops strictly inside, at every offset parity
-        r0 = rng.choice([0, 0, 1, 2, 3])
-        r1 = rng.choice([rows, rows, rows - 1, rows - 2])
-        c0 = rng.choice([0, 0, 1, 2, 3, 4])
+        r0 = rng.choice([0, 0, 1, 2, 3]) if not wide else 0
+        r1 = rng.choice([rows, rows, rows - 1, rows - 2]) if not wide else rows
+        c0 = rng.choice([0, 0, 1, 2, 3, 4]) if not wide else rng.choice([104, 108, 112, 117, 60])
         c1 = rng.choice([cols, cols, cols - 1, cols - 2, cols - 3])
         if r1 - r0 < 2 * rr + 3 or c1 - c0 < 2 * rc + 3 + (ext_hi - ext_lo):
             continue
@@ -152,6 +172,10 @@ def run(ctx, report, status):
     for i in range(ctx.n(25, 300)):
         gs = ctx.rng.randrange(1 << 30)
         run_whole_and_crops(ctx, report, gs, f"gen_seed={gs}")
+    for i in range(ctx.n(4, 30)):
+        gs = ctx.rng.randrange(1 << 30)
+        run_whole_and_crops(ctx, report, gs, f"gen_seed={gs},wide", wide=True)
+        report.count("wide_strips")
 
 
 def search(ctx, report, status):
@@ -171,7 +195,7 @@ def replay(ctx, report, path):
         data = json.load(f)
     case = data.get("input", data)
     gs = int(re.search(r"gen_seed=(\d+)", case["label"]).group(1))
-    run_whole_and_crops(ctx, report, gs, case["label"])
+    run_whole_and_crops(ctx, report, gs, case["label"], wide=case["label"].endswith(",wide"))
     for fl in report.failures:
         print("spec failure:", fl["clause"], fl["trigger"], json.dumps(fl["case"], default=str)[:300], fl["impl"])
     print("replayed: failures=%d" % len(report.failures))
